@@ -27,6 +27,11 @@ type Scenario struct {
 	Check   func(r *vrt.Result) string
 	// AllowDeadlock: executions that end with blocked harness threads are not violations
 	AllowDeadlock bool
+	// Reduce: skip states already expanded with at least as much budget left. A state is
+	// identified by the happens-before hash of the prefix, so two prefixes that differ only in
+	// the order of independent steps are expanded once. Requires that everything the oracle
+	// compares across threads is observed through scheduling points on shared objects.
+	Reduce bool
 }
 
 type Violation struct {
@@ -52,11 +57,14 @@ type Stats struct {
 	HorizonHits    int          `json:"horizon_hits"`
 	Capped         bool         `json:"capped"`
 	MaxThreads     int          `json:"max_threads"`
+	Pruned         int          `json:"executions_pruned_by_state_cache"`
+	States         int          `json:"distinct_states_expanded"`
 	Violations     []Violation  `json:"violations,omitempty"`
 	Known          []string     `json:"known_findings,omitempty"`
 	Sample         []string     `json:"sample_log,omitempty"`
 	SampleSchedule []vrt.Choice `json:"sample_schedule,omitempty"`
 	outcomes       map[string]int
+	OutcomeLogs    map[string][]string `json:"-"`
 }
 
 func (sc *Scenario) opts(prefix []vrt.Choice, verbose bool) vrt.Options {
@@ -111,6 +119,11 @@ func choicesOf(tr []vrt.Decision, n int) []vrt.Choice {
 func Explore(sc *Scenario, deadline time.Time, stopAtFirst bool) *Stats {
 	st := &Stats{Scenario: sc.Name, BoundAsked: sc.Bound, BoundCompleted: -1, outcomes: map[string]int{}}
 	seenViol := map[string]bool{}
+	if sc.Reduce {
+		sc.exploreReduced(st, deadline, stopAtFirst, seenViol)
+		st.Outcomes = len(st.outcomes)
+		return st
+	}
 	for b := 0; b <= sc.Bound; b++ {
 		n := 0
 		done := sc.dfs(b, st, deadline, stopAtFirst, seenViol, &n)
@@ -127,6 +140,8 @@ func Explore(sc *Scenario, deadline time.Time, stopAtFirst bool) *Stats {
 	st.Outcomes = len(st.outcomes)
 	return st
 }
+
+var debugOutcomes = os.Getenv("VERIF_DEBUG_OUTCOMES") != ""
 
 type frame struct {
 	prefix []vrt.Choice
@@ -146,7 +161,7 @@ func (sc *Scenario) dfs(bound int, st *Stats, deadline time.Time, stopAtFirst bo
 		// only count an execution once over the iterated bounds: the one whose cost equals bound,
 		// or every one at the final statistics level (cheap: we count all at the largest bound run)
 		cost := f.spent
-		if cost == bound || bound == 0 {
+		if cost == bound || (bound == 0 && cost == 0) {
 			st.Executions++
 			st.Points += len(r.Trace)
 			st.Steps += r.Steps
@@ -160,13 +175,19 @@ func (sc *Scenario) dfs(bound int, st *Stats, deadline time.Time, stopAtFirst bo
 				st.MaxThreads = r.Threads
 			}
 			k := outcomeKey(r)
+			if debugOutcomes && st.outcomes[k] == 0 {
+				if st.OutcomeLogs == nil {
+					st.OutcomeLogs = map[string][]string{}
+				}
+				st.OutcomeLogs[k] = r.Log
+			}
 			if st.outcomes[k] == 0 && len(st.outcomes) < 1 {
 				st.Sample = r.Log
 				st.SampleSchedule = choicesOf(r.Trace, len(r.Trace))
 			}
 			st.outcomes[k]++
 		}
-		if msg := sc.judge(r); msg != "" && (cost == bound || bound == 0) {
+		if msg := sc.judge(r); msg != "" && !r.Pruned && (cost == bound || bound == 0) {
 			v := sc.confirm(choicesOf(r.Trace, len(r.Trace)), msg)
 			if !seen[v.Sig] {
 				seen[v.Sig] = true
@@ -197,6 +218,109 @@ func (sc *Scenario) dfs(bound int, st *Stats, deadline time.Time, stopAtFirst bo
 		}
 	}
 	return true
+}
+
+// exploreReduced: best-first by deviations spent, with a cache of expanded states. A state is the
+// happens-before hash of the prefix (plus the baton holder and the clock); because frames are
+// processed in order of cost, a state is first reached with the least cost and never re-expanded.
+func (sc *Scenario) exploreReduced(st *Stats, deadline time.Time, stopAtFirst bool, seen map[string]bool) {
+	buckets := make([][]frame, sc.Bound+1)
+	buckets[0] = []frame{{nil, 0}}
+	visited := map[vrt.H]int{}
+	n := 0
+	selfHit := false
+	for c := 0; c <= sc.Bound; c++ {
+		cnt := 0
+		for len(buckets[c]) > 0 {
+			if !deadline.IsZero() && n%64 == 0 && time.Now().After(deadline) {
+				st.Capped = true
+				st.PerBound = append(st.PerBound, cnt)
+				st.States = len(visited)
+				return
+			}
+			f := buckets[c][len(buckets[c])-1]
+			buckets[c] = buckets[c][:len(buckets[c])-1]
+			o := sc.opts(f.prefix, false)
+			o.OnPoint = func(idx int, fp vrt.H) bool {
+				if by, ok := visited[fp]; ok {
+					if by == n {
+						selfHit = true // two decision points of one execution with the same fingerprint: the state hash misses something
+					}
+					return false
+				}
+				visited[fp] = n
+				return true
+			}
+			r := vrt.Execute(o, sc.Body)
+			n++
+			cnt++
+			if selfHit {
+				st.Violations = append(st.Violations, Violation{Scenario: sc.Name, Message: "INFRA: state fingerprint unchanged between two decision points of one execution", Sig: "INFRA selfhit"})
+				return
+			}
+			if r.Pruned {
+				st.Pruned++
+			} else {
+				st.Executions++
+				if r.Switches > 0 {
+					st.Nontrivial++
+				}
+				if r.HorizonHit {
+					st.HorizonHits++
+				}
+				k := outcomeKey(r)
+				if debugOutcomes && st.outcomes[k] == 0 {
+					if st.OutcomeLogs == nil {
+						st.OutcomeLogs = map[string][]string{}
+					}
+					st.OutcomeLogs[k] = r.Log
+				}
+				if len(st.outcomes) == 0 {
+					st.Sample = r.Log
+					st.SampleSchedule = choicesOf(r.Trace, len(r.Trace))
+				}
+				st.outcomes[k]++
+			}
+			st.Points += len(r.Trace) - len(f.prefix)
+			st.Steps += r.Steps
+			if r.Threads > st.MaxThreads {
+				st.MaxThreads = r.Threads
+			}
+			if !r.Pruned {
+				if msg := sc.judge(r); msg != "" {
+					v := sc.confirm(choicesOf(r.Trace, len(r.Trace)), msg)
+					if !seen[v.Sig] {
+						seen[v.Sig] = true
+						st.Violations = append(st.Violations, v)
+					}
+					if stopAtFirst || strings.HasPrefix(msg, "INFRA") {
+						st.States = len(visited)
+						return
+					}
+					continue
+				}
+			}
+			for i := len(f.prefix); i < len(r.Trace); i++ {
+				d := r.Trace[i]
+				for alt := d.N - 1; alt >= 1; alt-- {
+					cc := f.spent
+					if d.Costly {
+						cc++
+					}
+					if cc > sc.Bound {
+						continue
+					}
+					np := make([]vrt.Choice, i+1)
+					copy(np, choicesOf(r.Trace, i))
+					np[i] = vrt.Choice{C: alt, N: d.N}
+					buckets[cc] = append(buckets[cc], frame{np, cc})
+				}
+			}
+		}
+		st.PerBound = append(st.PerBound, cnt)
+		st.BoundCompleted = c
+	}
+	st.States = len(visited)
 }
 
 // confirm replays a violating schedule 5 times and checks that the observation is identical.
